@@ -79,7 +79,11 @@ def call_stmt(ex, e, st):
         if isinstance(base, Tup) and f.attr == "append":
             st.env[name] = Tup(base.items + [ex.ev(e.args[0], st)])
             return
-        from pyvc.sym import CList
+        from pyvc.sym import CList, MemList
+        if isinstance(base, MemList) and f.attr == "append":
+            ex.frame_store(st, name, e.lineno)
+            st.env[name] = MemList(z3.Store(base.chi, toint(ex.ev(e.args[0], st)), z3.BoolVal(True)))
+            return
         if isinstance(base, CList) and f.attr == "append":
             ex.ev(e.args[0], st)                         # the argument is evaluated (its own exceptions are obligations); only the length is kept
             ex.frame_store(st, name, e.lineno)
@@ -353,9 +357,16 @@ def b_len(ex, e, st):
         return iv(len(v.items))
     if isinstance(v, PySet):
         return iv(len(v.items))
-    from pyvc.sym import CList
+    from pyvc.sym import CList, MemList
     if isinstance(v, CList):
         return v.n
+    if isinstance(v, MemList):
+        # only the set of elements is tracked: the length is some n >= 0 that is 0 exactly when there is no element
+        n_ = fresh("len")
+        x_ = z3.Int("x#mlen")
+        st.assume(n_ >= 0)
+        st.assume((n_ == 0) == z3.ForAll([x_], z3.Not(v.chi[x_]), patterns=[v.chi[x_]]))
+        return n_
     from pyvc.engine import is_opaque
     if is_opaque(v) or isinstance(v, Coll):
         n_ = fresh("len")
